@@ -23,6 +23,17 @@ def queries(tier):
                     timeout=300, params={"kernel": "dialer_connect_cb", "result": "any nng_err", "owner": "user aio"}))
     qs.append(Query("listener-accept-any-result", "c14/listener_accept.c", tus=TUS, env=ENV, defs={}, unwind=10, unwind_rules=KIT_RULES, timeout=300,
                     params={"kernel": "listener_accept_cb", "result": "any nng_err"}))
+    for lst in (0, 1):
+        for case, dd in (("started", {}), ("closed-in-add-pre", {"CLOSEPRE": 1}), ("refused-by-protocol", {"BADSTART": 1})):
+            d = {"MODE": 3}
+            d.update(dd)
+            if lst:
+                d["LISTENER"] = 1
+            qs.append(Query("start-pipe-%s-%s" % ("listener" if lst else "dialer", case), "c14/sock_events.c", tus=TUS, env=ENV, defs=d, unwind=10, unwind_rules=KIT_RULES,
+                            timeout=300, group="~c14/sock_events.c#3", params={"kernel": "listener_start_pipe" if lst else "dialer_start_pipe", "case": case}))
+    for whose, nm in ((0, "dialers-current-pipe"), (1, "dialers-other-pipe"), (2, "listeners-pipe")):
+        qs.append(Query("pipe-remove-%s" % nm, "c14/sock_events.c", tus=TUS, env=ENV, defs={"MODE": 4, "WHOSE": whose}, unwind=10, unwind_rules=KIT_RULES, timeout=300,
+                        group="~c14/sock_events.c#4", params={"kernel": "nni_pipe_remove", "pipe": nm}))
     PENV = ["env_alloc.c", "env_misc.c", "env_sync.c", "env_aio.c", "env_idmap.c", "env_libc.c"]
     for extra in (0, 1, 2):
         qs.append(Query("pipe-reap-order-holders%d" % extra, "c14/pipe_reap.c", tus=TUS, env=PENV, defs={"EXTRA": extra}, unwind=30, timeout=300, group="c14/pipe_reap.c",
